@@ -158,6 +158,14 @@ pub trait Propagator {
         ensures forall|a: Asg| #[trigger] final(self).constraint(a) == old(self).constraint(a),
                 final(self).undone() == old(self).undone().push((local_id, event));
 
+    // lazily explained propagations (Reason::DynamicLazy): a propagator that posts them must answer lazy_explanation
+    // (the default of the real trait panics: modelled by the precondition)
+    spec fn uses_lazy_reasons(&self) -> bool;
+    spec fn lazy_reason(&self, code: u64) -> Seq<Predicate>;
+    fn lazy_explanation(&mut self, code: u64, context: ExplanationContext) -> (r: &[Predicate])
+        requires old(self).uses_lazy_reasons()
+        ensures r@ == old(self).lazy_reason(code);
+
     // the incremental state of the propagator reflects the given store (backtracking protocol: the engine calls
     // `synchronise` on every propagator after a backtrack, whatever the value of a reification literal)
     spec fn in_sync(&self, live: Live) -> bool;
@@ -166,6 +174,7 @@ pub trait Propagator {
         ensures forall|a: Asg| #[trigger] final(self).constraint(a) == old(self).constraint(a),
                 final(self).in_sync(context.assignments.live@);
 }
+pub struct ExplanationContext<'a> { pub assignments: &'a Assignments }
 pub open spec fn valid_conflict(live: Live, c: Model, conj: PropositionalConjunction) -> bool {
     (forall|a: Asg| #![trigger live(a)] live(a) ==> conj_holds(conj, a))
     && (forall|a: Asg| #![trigger conj_holds(conj, a)] conj_holds(conj, a) ==> !c(a))
@@ -188,6 +197,9 @@ pub open spec fn cache_valid<P: Propagator>(p: &ReifiedPropagator<P>, live: Live
 }
 
 impl<WrappedPropagator: Propagator> ReifiedPropagator<WrappedPropagator> {
+    // does the wrapper answer lazy_explanation itself?  (read off the repository text; without an override the
+    // trait's default applies, which panics)
+    pub open spec fn answers_lazy() -> bool { /*@@HAS reif_prop::lazy_explanation@@*/ }
 //@@EXTRACT reif_prop@@
 }
 impl<Prop: Propagator> ReifiedPropagator<Prop> {
